@@ -169,6 +169,10 @@ def ob_funcfit_recover(func, n, ncoeff):
     return Obligation('func_fit recover %s n=%d nc=%d' % (func, n, ncoeff), fn, bounds='every coefficient vector')
 
 
+# jump variants: 1 = in the interior, 2 = starting exactly at 0, 3 = ending at 0 with a negative start
+JUMPS = {1: (F(2), F(4), F(1, 2)), 2: (F(0), F(3), F(1, 2)), 3: (F(-2), F(0), F(-1, 4))}
+
+
 def ob_traceset(func, ntrace, nx, ncoeff, jump):
     def fn(ctx):
         from pydl.pydlutils.trace import TraceSet
@@ -178,7 +182,7 @@ def ob_traceset(func, ntrace, nx, ncoeff, jump):
         ctx.detail = d
         kw = {}
         if jump:
-            kw = dict(xjumplo=F(2), xjumphi=F(4), xjumpval=F(1, 2))
+            kw = dict(zip(('xjumplo', 'xjumphi', 'xjumpval'), JUMPS[jump]))
             kw = {k: R(v) for k, v in kw.items()}
         tset = TraceSet(symnp.rarray(xpos), symnp.rarray(ys), func=func, ncoeff=ncoeff, **kw)
         ctx.require(tset.coeff.shape == (ntrace, ncoeff), 'TraceSet: coefficient matrix shape', d)
@@ -222,11 +226,13 @@ def obligations(tier, seed):
             obs.append(ob_funcfit(*c))
     for f in REFS:
         obs.append(ob_funcfit_recover(f, 6, 3 if q else 4))
-    for f, nt, nx, nc, j in [('legendre', 2, 5, 3, False), ('legendre', 1, 5, 3, True), ('chebyshev', 2, 4, 2, True), ('poly', 1, 6, 4, False)]:
+    for f, nt, nx, nc, j in [('legendre', 2, 5, 3, 0), ('legendre', 1, 5, 3, 1), ('chebyshev', 2, 4, 2, 2), ('poly', 1, 6, 4, 0), ('legendre', 1, 5, 3, 3)]:
         obs.append(ob_traceset(f, nt, nx, nc, j))
     if not q:
-        obs.append(ob_traceset('chebyshev', 3, 6, 4, True))
-        obs.append(ob_traceset('poly', 2, 6, 3, True))
+        obs.append(ob_traceset('chebyshev', 3, 6, 4, 1))
+        obs.append(ob_traceset('poly', 2, 6, 3, 2))
+        obs.append(ob_traceset('legendre', 2, 6, 3, 2))
+        obs.append(ob_traceset('chebyshev', 2, 5, 3, 3))
     return obs
 
 
@@ -316,7 +322,7 @@ def replay(rec):
         ntrace, nx, ncoeff = d['ntrace'], d['nx'], d['ncoeff']
         xpos = np.array([[10.0 * t + j * 1.5 for j in range(nx)] for t in range(ntrace)])
         ys = np.array([[_f(inp.get('y%d_%d' % (t, j), 0)) for j in range(nx)] for t in range(ntrace)])
-        kw = dict(xjumplo=2.0, xjumphi=4.0, xjumpval=0.5) if d['jump'] else {}
+        kw = dict(zip(('xjumplo', 'xjumphi', 'xjumpval'), [float(v) for v in JUMPS[int(d['jump'])]])) if d['jump'] else {}
         tset = TraceSet(xpos, ys, func=d['func'], ncoeff=ncoeff, **kw)
         xo, yo = tset.xy(xpos)
         if np.abs(yo - tset.yfit).max() > 1e-9 * max(1.0, np.abs(ys).max()):
